@@ -538,8 +538,18 @@ func (s *session) run(in input) {
 			// 2^-7 for a non-power-of-two input scale, a factor input/default scale <= 2^12 in iterated mode): an
 			// error beyond that is something else and keeps the plain signature
 			mp := msgPreds
-			if in.Scale == "non-pow2" && e > math.Max(M, 1.0/1024)/16 {
-				mp = strings.Replace(mp, "|input-scale-not-a-power-of-two", "", 1)
+			if in.Scale == "non-pow2" {
+				// the triaged defect matches the scale with the integer k = round(Q0/(scale*MessageRatio)) after dropping
+				// to level 0: relative error up to 1/(2k). k >= 8 in all but the sets with a small first prime and a
+				// small message ratio; there (k < 8) the error reaches 1/6 and a message at the top of its range leaves
+				// the interval of the modular reduction - its own class, without a magnitude bound
+				k := math.Round(float64(s.res.Q()[0]) / (scale.Float64() * math.Exp2(float64(s.cf.LogRatio))))
+				switch {
+				case k < 8:
+					mp = strings.Replace(mp, "|input-scale-not-a-power-of-two", "|input-scale-not-a-power-of-two,matching-integer-below-8", 1)
+				case e > math.Max(M, 1.0/1024)/16:
+					mp = strings.Replace(mp, "|input-scale-not-a-power-of-two", "", 1)
+				}
 			}
 			if e > math.Max(M, 1.0/1024)*4096 {
 				mp = strings.Replace(mp, "|iterated,input-scale!=default", "", 1)
